@@ -57,6 +57,14 @@ func (w *World) oracleOnBind(p *PodInfo, m *simkube.Mutation) {
 	if w.armed("C08") && p.App != nil && len(p.Ranges) > 0 {
 		w.oracleC08Bind(p)
 	}
+	if w.armed("C02") && p.App != nil && w.M.lostReservationIP[p.Key] != "" {
+		if old := w.M.lostReservationIP[p.Key]; w.inNewestConf(old) && !hasStr(p.IPs, old) {
+			w.fail("C02.different-ip-while-reservation-should-exist", "different-ip-while-reservation-should-exist",
+				"identity %q (policy %s) is bound again with %v; it held %s and nothing the policy allows ended that reservation",
+				p.Key, p.App.effPolicy(), p.IPs, w.M.lostReservation[p.Key])
+			return
+		}
+	}
 	if w.armed("C02") && p.App != nil && len(p.Ranges) == 0 && !w.identityEverHadRanges(p.Key) {
 		// (c) the IPs written into the binding are exactly the IPs the store holds for the identity
 		var held []string
@@ -162,6 +170,7 @@ func (w *World) oracleOnFip(m *simkube.Mutation) {
 		return
 	}
 	w.oracleC03(m, ip, oldF, newF, prev)
+	w.noteLostReservation(m, ip, oldF, newF, prev)
 	w.oracleC02Create(m, ip, oldF, newF)
 	w.oracleC07(m, ip, oldF, newF)
 	w.oracleC09Store(m, ip, oldF, newF)
@@ -300,6 +309,22 @@ func policyTag(w *World, key string) string {
 		return id.App.Kind + "/" + id.App.effPolicy()
 	}
 	return "prefix"
+}
+
+// noteLostReservation (C02): an identity with a reserving policy loses its IP although the documented policy says the
+// reservation still exists. The verdict is given when the identity is bound again with a different IP.
+func (w *World) noteLostReservation(m *simkube.Mutation, ip string, oldF, newF *FipInfo, prev *Alloc) {
+	if !w.armed("C02") || prev == nil || oldF == nil || newF != nil || !isPodKey(oldF.Key) {
+		return
+	}
+	id := w.M.idents[oldF.Key]
+	if id == nil || id.App.effPolicy() == "" || w.identityEverHadRanges(oldF.Key) {
+		return
+	}
+	if ok, why := w.releaseJustified(prev, m.By); !ok {
+		w.M.lostReservation[oldF.Key] = fmt.Sprintf("%s (released at step %d by %s: %s)", ip, w.S.Steps, m.By.Name, why)
+		w.M.lostReservationIP[oldF.Key] = ip
+	}
 }
 
 // ---- C02: stickiness --------------------------------------------------------------------------------------
